@@ -268,6 +268,9 @@ def model_bin(name):
 # ---------------------------------------------------------------------------------------------
 # running cases
 
+_HUNG = set()
+
+
 def run_lines(binary, lines, timeout=120, shards=NPROC, wrap_ulimit=False):
     """Feed lines to `binary` (one result per line), sharded over processes.  Returns list of
     result lines aligned with input; a shard that dies yields 'CRASH(<rc>)' for its unanswered lines."""
@@ -286,11 +289,13 @@ def run_lines(binary, lines, timeout=120, shards=NPROC, wrap_ulimit=False):
         p = subprocess.Popen(cmd, stdin=subprocess.PIPE, stdout=subprocess.PIPE, stderr=subprocess.PIPE, env=ENV)
         timed_out = False
         try:
-            o, e = p.communicate(('\n'.join(lines_) + '\n').encode(), timeout=timeout)
+            # once one chunk of this binary has hung, later chunks get a short leash
+            o, e = p.communicate(('\n'.join(lines_) + '\n').encode(), timeout=(15 if binary in _HUNG else timeout))
         except subprocess.TimeoutExpired:
             p.kill()
             o, e = p.communicate()
             timed_out = True
+            _HUNG.add(binary)
         outl = o.decode('utf-8', 'replace').split('\n')
         if outl and outl[-1] == '':
             outl.pop()
@@ -394,7 +399,10 @@ def check_property(pid, tier, seed):
     # ---- 1. obligations -------------------------------------------------------------------
     props_file = os.path.join(COQ, prop.PROPS_FILE)
     names = theorem_names(props_file)
-    targets = [prop.PROPS_FILE[:-2] + '.vo'] + [t for t in getattr(prop, 'COQ_TARGETS', [])]
+    extra_props = list(getattr(prop, 'EXTRA_PROPS', []))      # [(file, module)]: further files holding property theorems
+    for f_, _m in extra_props:
+        names += theorem_names(os.path.join(COQ, f_))
+    targets = [prop.PROPS_FILE[:-2] + '.vo'] + [f_[:-2] + '.vo' for f_, _m in extra_props] + [t for t in getattr(prop, 'COQ_TARGETS', [])]
     ok_build, build_log = coq_make(targets)
     obligations_broken = []
     if not ok_build:
@@ -406,7 +414,7 @@ def check_property(pid, tier, seed):
     assum = None
     axioms_used = set()
     if ok_build:
-        assum, alog = print_assumptions(pid, prop.PROPS_MODULE, names)
+        assum, alog = print_assumptions(pid, ' '.join([prop.PROPS_MODULE] + [m_ for _f, m_ in extra_props]), names)
         if assum is None:
             obligations_broken.append('Print Assumptions failed: ' + alog[-500:])
         else:
